@@ -347,8 +347,22 @@ func (r *vfQRun) judge(vr *vfRun, choices []int, report bool) string {
 	return strings.Join(res, " ") + fmt.Sprintf(" final=[%s|%s] closed=%v", vfQTags(r.q.queue.priority), vfQTags(r.q.queue.normal), r.q.closed)
 }
 
-// vfQExplore: iterative preemption bounding, then unbounded with state caching.
-func vfQExplore(vr *vfRun, sc *vfQScenario, maxBound int, unbounded bool) {
+type vfSchedRunI interface {
+	Sched() *vsync.Sched
+	Judge(vr *vfRun, choices []int, report bool) string
+	Case(choices []int) any
+}
+
+func (r *vfQRun) Sched() *vsync.Sched { return r.sched }
+func (r *vfQRun) Judge(vr *vfRun, choices []int, report bool) string {
+	return r.judge(vr, choices, report)
+}
+func (r *vfQRun) Case(choices []int) any {
+	return vfQSchedCase{Scenario: r.sc, Variant: "sched", Schedule: choices, Trace: r.sched.Trace}
+}
+
+// vfSchedExplore: iterative preemption bounding, then unbounded with state caching.
+func vfSchedExplore(vr *vfRun, name string, build func() vfSchedRunI, maxBound int, unbounded bool) {
 	runs := int64(0)
 	var seen map[string]struct{}
 	var exploreB func(prefix []int, bound int)
@@ -356,9 +370,10 @@ func vfQExplore(vr *vfRun, sc *vfQScenario, maxBound int, unbounded bool) {
 		if vr.outOfTime() {
 			return
 		}
-		r := vfQBuild(sc)
+		r := build()
+		sc := r.Sched()
 		if seen != nil {
-			r.sched.Visit = func(k string) bool {
+			sc.Visit = func(k string) bool {
 				if _, ok := seen[k]; ok {
 					return false
 				}
@@ -367,22 +382,24 @@ func vfQExplore(vr *vfRun, sc *vfQScenario, maxBound int, unbounded bool) {
 				return true
 			}
 		}
-		vr.mark(vfQSchedCase{Scenario: sc, Variant: "sched", Schedule: prefix})
-		r.sched.Run(prefix)
+		vr.mark(r.Case(prefix))
+		sc.Run(prefix)
 		vr.unmark()
+		if c, ok := r.(interface{ Cleanup() }); ok {
+			c.Cleanup()
+		}
 		runs++
 		vr.res.Executions++
-		vr.res.Transitions += int64(len(r.sched.Points))
-		if !r.sched.Pruned {
-			out := r.judge(vr, r.sched.Choices, true)
-			vr.outcome(sc.Name + ": " + out)
-			if len(vr.res.Samples) < 3 && len(r.sched.Choices) > 6 {
-				vr.sample(vfQSchedCase{Scenario: sc, Variant: "sched", Schedule: r.sched.Choices, Trace: r.sched.Trace})
+		vr.res.Transitions += int64(len(sc.Points))
+		if !sc.Pruned {
+			out := r.Judge(vr, sc.Choices, true)
+			vr.outcome(name + ": " + out)
+			if len(vr.res.Samples) < 3 && len(sc.Choices) > 6 {
+				vr.sample(r.Case(sc.Choices))
 			}
 		}
-		pts := r.sched.Points
-		choices := r.sched.Choices
-		// preemptions used before each point
+		pts := sc.Points
+		choices := sc.Choices
 		pre := 0
 		cost := make([]int, len(pts))
 		for i, p := range pts {
@@ -409,21 +426,25 @@ func vfQExplore(vr *vfRun, sc *vfQScenario, maxBound int, unbounded bool) {
 	for b := 0; b <= maxBound; b++ {
 		before := runs
 		exploreB(nil, b)
-		vr.res.Bounds[fmt.Sprintf("%s:preemption_bound_%d_runs", sc.Name, b)] = runs - before
+		vr.res.Bounds[fmt.Sprintf("%s:preemption_bound_%d_runs", name, b)] = runs - before
 		if vr.outOfTime() {
 			return
 		}
 	}
-	vr.res.Bounds[sc.Name+":preemption_bound_completed"] = maxBound
+	vr.res.Bounds[name+":preemption_bound_completed"] = maxBound
 	if unbounded {
 		seen = map[string]struct{}{}
 		before := runs
 		exploreB(nil, -1)
 		if !vr.outOfTime() {
-			vr.res.Bounds[sc.Name+":unbounded_with_state_cache_runs"] = runs - before
-			vr.res.Bounds[sc.Name+":unbounded_states"] = len(seen)
+			vr.res.Bounds[name+":unbounded_with_state_cache_runs"] = runs - before
+			vr.res.Bounds[name+":unbounded_states"] = len(seen)
 		}
 	}
+}
+
+func vfQExplore(vr *vfRun, sc *vfQScenario, maxBound int, unbounded bool) {
+	vfSchedExplore(vr, sc.Name, func() vfSchedRunI { return vfQBuild(sc) }, maxBound, unbounded)
 }
 
 func vfC15SchedScenarios(thorough bool) []*vfQScenario {
